@@ -154,6 +154,29 @@ fn check_cli(list: &[String]) -> Verdict {
     for &b in line.as_bytes() {
         s.byte(b).map_err(|e| Failure::new("classify-cli", case(), "Ok", format!("{:?}", e)))?;
     }
+    // the same list typed with every dash written as `\-` inside quotes: that escape is one the quoting rules leave open
+    // (it stands for `-` or for `\-`), but whichever reading the tokeniser takes, the classification must follow it
+    if list.iter().any(|t| t.contains('-')) && list.len() % 2 == 1 {
+        let (s2, _) = Sess::<RawSet>::new(&cfg, None);
+        let mut s2 = s2.map_err(|e| Failure::new("classify-cli", case(), "construction succeeds", format!("{:?}", e)))?;
+        let mut l2 = String::from("x");
+        for t in list {
+            l2.push_str(" \"");
+            for c in t.chars() {
+                if c == '"' || c == '\\' || c == '-' {
+                    l2.push('\\');
+                }
+                l2.push(c);
+            }
+            l2.push('"');
+        }
+        for &b in l2.as_bytes() {
+            s2.byte(b).map_err(|e| Failure::new("classify-cli", case(), "Ok", format!("{:?}", e)))?;
+        }
+        s2.byte(b'\r').map_err(|e| Failure::new("classify-cli", case(), "Ok", format!("{:?}", e)))?;
+        let d = super::lockstep::expected_dispatch(&l2, true);
+        super::lockstep::check_dispatch(&d, &s2.proc_.log, "Enter", &l2).map_err(|(e, o)| Failure::new("classify-cli", case(), e, o))?;
+    }
     let exp = ref_classify(list);
     // a help request is answered by the library (C12); nothing to compare then
     let mut toks = vec!["x".to_string()];
@@ -231,10 +254,13 @@ fn token_strategy(typeable: bool) -> impl Strategy<Value = String> {
         10 => any::<u16>().prop_map(move |s| pick(&table, s)),
         1 => any::<char>().prop_map(move |c| if c == '\0' || (typeable && (c < ' ' || c == '\x7f')) { 'Ω' } else { c }),
     ];
+    // spellings that some parser would read as a number are tokens like any other: a dash in front makes them clusters
+    let numberish = vec!["-5", "-1e3", "-inf", "-nan", "-infinity", "-NaN", "-0", "-.5", "-0x1f", "--5", "-1_000", "inf", "-INF"];
     prop_oneof![
         1 => Just("--".to_string()),
         1 => Just("-".to_string()),
         1 => Just(String::new()),
+        1 => any::<u16>().prop_map(move |s| pick(&numberish, s).to_string()),
         10 => proptest::collection::vec(ch, 0..7).prop_map(|v| v.into_iter().collect()),
     ]
 }
